@@ -77,3 +77,24 @@ func verifSecretFor(key []byte, fails bool) string {
 	}
 	return verifCurSecretText
 }
+
+// verifKeyEquiv: the key handed to HMAC denotes the secret.  HMAC zero-pads keys shorter than
+// its block size (RFC 2104), so "secret followed by zero bytes up to the block size" is the same
+// key; anything else (truncation, other bytes, longer than a block) is not.
+func verifKeyEquiv(got, secret []byte, alg int) bool {
+	block := 64
+	if alg == 2 {
+		block = 128
+	}
+	if len(got) == len(secret) {
+		return verifBytesEq(got, secret)
+	}
+	if len(got) < len(secret) || len(got) > block {
+		return false
+	}
+	ok := verifBytesEq(got[:len(secret)], secret)
+	for _, b := range got[len(secret):] {
+		ok = verifAnd(ok, b == 0)
+	}
+	return ok
+}
